@@ -1,4 +1,5 @@
 From Coq Require Extraction.
 From Coq Require Import ExtrOcamlBasic.
-From NV Require Import Base.Witness Async.Framing.
-Extraction "model.ml" nv_types_witness async_obs_case sync_obs_case.
+From NV Require Import Base.Witness Async.Framing Bgzf.Vpos Bgzf.Gzi Bgzf.ReaderOps Async.Reader.
+Extraction "model.ml" nv_types_witness async_obs_case sync_obs_case
+  async_reader_case sync_reader_case pack vcomp vuncomp.
